@@ -453,8 +453,18 @@ pub fn reachable(m: &MReg, accepted: &[u32]) -> BTreeSet<u32> {
 
 /// the complete C10 oracle, shared with the fuzz target and with C01
 pub fn check_retain(m: &MReg, accept: &dyn Fn(u32) -> bool) -> Result<(BTreeMap<u32, u32>, MReg), String> {
-    wf_model(m).map_err(|e| format!("harness bug: input not well-formed: {e}"))?;
     let mut lib = to_lib(m);
+    check_retain_on(&mut lib, m, accept)
+}
+
+/// the same oracle applied to an existing library object whose content is `m` (histories: the
+/// object may have been decoded, or be the result of earlier retains)
+pub fn check_retain_on(
+    lib: &mut PortableRegistry,
+    m: &MReg,
+    accept: &dyn Fn(u32) -> bool,
+) -> Result<(BTreeMap<u32, u32>, MReg), String> {
+    wf_model(m).map_err(|e| format!("harness bug: input not well-formed: {e}"))?;
     let mut calls: Vec<u32> = Vec::new();
     let map = lib.retain(|id| {
         calls.push(id);
@@ -479,8 +489,8 @@ pub fn check_retain(m: &MReg, accept: &dyn Fn(u32) -> bool) -> Result<(BTreeMap<
     if lib.types.len() != map.len() {
         return Err(format!("result has {} entries but the map has {}", lib.types.len(), map.len()));
     }
-    wf_lib(&lib).map_err(|e| format!("result of retain is not well-formed: {e}"))?;
-    let out = from_lib(&lib);
+    wf_lib(lib).map_err(|e| format!("result of retain is not well-formed: {e}"))?;
+    let out = from_lib(lib);
     for (old, new) in &map {
         let want = MPType {
             id: *new,
@@ -557,8 +567,86 @@ fn c10_strat(max: usize) -> BoxedStrategy<C10Case> {
         .boxed()
 }
 
+/// A history: the registry is optionally passed through its SCALE or JSON form first, then
+/// retained several times in a row (the result of a retain is a well-formed registry again), and
+/// finally encoded; every step is judged by the single-step oracle against the model of the
+/// previous step, on the *same* library object.
+#[derive(Clone, Debug, serde::Serialize, serde::Deserialize)]
+pub struct C10Chain {
+    pub m: MReg,
+    /// 0 = built directly, 1 = decoded from its SCALE encoding, 2 = deserialised from its JSON
+    pub via: u8,
+    /// per step: answers for ids 0.. (shorter registries use a prefix) and the answer for foreign ids
+    pub steps: Vec<(Vec<bool>, bool)>,
+}
+
+pub fn c10_chain_body(c: &C10Chain, obs: &mut Obs) -> Result<(), String> {
+    let mut model = c.m.clone();
+    let mut lib = match c.via {
+        1 => PortableRegistry::decode(&mut &ref_enc(&model)[..]).map_err(|e| format!("decoding a well-formed registry failed: {e:?}"))?,
+        2 => serde_json::from_value::<PortableRegistry>(to_json_ref(&model))
+            .map_err(|e| format!("deserialising the JSON of a well-formed registry failed: {e}"))?,
+        _ => to_lib(&model),
+    };
+    obs.class(match c.via {
+        1 => "via/scale_decode",
+        2 => "via/json",
+        _ => "via/direct",
+    });
+    let mut shrunk_twice = 0;
+    for (k, (mask, outside)) in c.steps.iter().enumerate() {
+        let accept = |id: u32| mask.get(id as usize).copied().unwrap_or(*outside);
+        let before = model.types.len();
+        let (map, out) = check_retain_on(&mut lib, &model, &accept).map_err(|e| format!("step {k}: {e}"))?;
+        if map.len() < before && !map.is_empty() {
+            shrunk_twice += 1;
+        }
+        model = out;
+    }
+    let enc = lib.encode();
+    if enc != ref_enc(&model) {
+        return Err("the encoding after the history differs from the encoding of the expected registry".into());
+    }
+    if shrunk_twice >= 2 {
+        obs.class("shrunk_at_least_twice");
+        obs.nontrivial(&(ref_enc(&c.m), &c.steps, c.via));
+    }
+    obs.class(&format!("steps/{}", c.steps.len()));
+    if obs.want_sample() {
+        obs.sample(json!({"registry": sample_reg(&c.m), "via": c.via, "steps": c.steps.len(), "final_len": model.types.len()}));
+    }
+    Ok(())
+}
+
+fn c10_chain_strat(max: usize) -> BoxedStrategy<C10Chain> {
+    reg_wf(max)
+        .prop_flat_map(|m| {
+            let n = m.types.len();
+            let step = (
+                prop_oneof![
+                    5 => vec(prop::bool::weighted(0.6), n..=n),
+                    2 => vec(any::<bool>(), n..=n),
+                    1 => Just(vec![true; n]),
+                ],
+                prop::bool::weighted(0.3),
+            );
+            (Just(m), 0u8..3, vec(step, 2..=4))
+        })
+        .prop_map(|(m, via, steps)| C10Chain { m, via, steps })
+        .boxed()
+}
+
 pub fn c10_subs() -> Vec<Box<dyn Sub>> {
     vec![
+        Box::new(Check {
+            name: "retain_chains",
+            quick: 12_000,
+            thorough: 400_000,
+            strat: Box::new(|| c10_chain_strat(24)),
+            body: Box::new(c10_chain_body),
+            guard_death: true,
+            max_shrink: 4096,
+        }),
         Box::new(Check {
             name: "retain_small",
             quick: 40_000,
